@@ -52,9 +52,11 @@ pf_scan_format_string(
                 fmt.field.asterisk = false; // prevent recalling va_arg()
                 fmt.field.width = width;
             }
-            else if (width < 0)
+            else if (width < 0) // a negative field width is a '-' flag and a positive width
             {
                 fmt.field.asterisk = false;
+                fmt.flag.dash      = 1;
+                fmt.field.width    = -(unsigned)width;
             }
             c++;
         }
